@@ -174,4 +174,17 @@ DefineAcc(st, stmts, i, u) ==
        IF r.res = "rej" THEN [res |-> "rej", st |-> st, at |-> i]
        ELSE DefineAcc([ns |-> r.ns, cur |-> r.cur], stmts, i + 1, u \/ r.res = "u1")
 Define(stmts) == DefineAcc(InitState, stmts, 1, FALSE)
+
+\* ---- values without spans / creation flags (for comparing two derivations of one tree) ----
+RECURSIVE Plain(_), PlainSeq(_), PlainEntries(_)
+Plain(v) ==
+  CASE v.k = "a" -> [k |-> "a", v |-> PlainSeq(v.v)]
+    [] v.k = "t" -> [k |-> "t", v |-> PlainEntries(v.v)]
+    [] v.k = "s" -> [k |-> "s", v |-> v.v]
+    [] v.k = "i" -> [k |-> "i", neg |-> v.neg, d |-> v.d]
+    [] v.k = "f" -> [k |-> "f", c |-> v.c, neg |-> v.neg, d |-> v.d, e |-> v.e]
+    [] v.k = "b" -> [k |-> "b", v |-> v.v]
+    [] v.k = "dt" -> [k |-> "dt", date |-> v.date, time |-> v.time, off |-> v.off]
+PlainSeq(vs) == IF vs = <<>> THEN <<>> ELSE <<Plain(Head(vs))>> \o PlainSeq(Tail(vs))
+PlainEntries(es) == IF es = <<>> THEN <<>> ELSE <<[key |-> Head(es).key, val |-> Plain(Head(es).val)]>> \o PlainEntries(Tail(es))
 =============================================================================
